@@ -1,7 +1,7 @@
 package router
 
 //verif:dir internal/router
-//verif:bound route tables of 2 routes drawn from 10 endpoint shapes (including trailing-slash twins) x {GET, ANY} with request paths of arbitrary bytes over {/ a b c}, len<=4 (quick) / <=5 (thorough); thorough also 3 routes with paths of len<=3; method GET; the iteration order of the route map is arbitrary and independent in the two lookups
+//verif:bound route tables of 2 routes drawn from 10 endpoint shapes (including trailing-slash twins) x {GET, ANY} with request paths of arbitrary bytes over {/ a b c}, len<=4 (quick) / <=5 (thorough); method GET; the iteration order of the route map is arbitrary and independent in the two lookups
 //verif:outside the concrete server route table (its routes are instances of these shapes), route locking, paths longer than the bound
 
 import (
@@ -40,12 +40,7 @@ func c32Matches(endpoint string, segs []string) bool {
 func VerifC32_deterministicAndMostSpecific() {
 	nRoutes, nPath := 2, 4
 	if sym.Thorough() {
-		// deeper in one direction at a time: longer paths, or one more route
-		if sym.Bool("threeRoutes") {
-			nRoutes, nPath = 3, 3
-		} else {
-			nRoutes, nPath = 2, 5
-		}
+		nPath = 5 // three routes did not finish within the thorough budget (45 min): stated as outside
 	}
 	sym.Bound("routes", nRoutes)
 	sym.Bound("pathBytes", nPath)
